@@ -33,7 +33,9 @@ def py_value(d):
     if "int" in d: return d["int"]
     if "str" in d: return d["str"]
     if "hex" in d: return bytes(d["bytes"])
-    if "flt" in d: return float("%de%d" % tuple(d["flt"]))
+    if "flt" in d:
+        if d.get("as_int"): return d["flt"][0] * 10 ** d["flt"][1]        # a Python int in a REAL object
+        return float("%de%d" % tuple(d["flt"]))
     raise ValueError(d)
 
 
@@ -290,7 +292,9 @@ def gpyv(d, dt=None):
     if "int" in d: return f"(Some (PVInt {gz(d['int'])}))"
     if "str" in d: return f"(Some (PVStr {gs(d['str'])}))"
     if "hex" in d: return f"(Some (PVBytes {gzlist(d['bytes'])}))"
-    if "flt" in d: return f"(Some (PVFloat {gz(d['flt'][0])} {gz(d['flt'][1])}))"
+    if "flt" in d:
+        if d.get("as_int"): return f"(Some (PVInt {gz(d['flt'][0] * 10 ** d['flt'][1])}))"
+        return f"(Some (PVFloat {gz(d['flt'][0])} {gz(d['flt'][1])}))"
     raise ValueError(d)
 
 
